@@ -884,6 +884,10 @@ class TypeDependencyAnalysis(DefaultVisitor):
         type_assignments = {}
         has_decl_node = False
         for n in inferred_nodes:
+            if n.target.get_type() is None:
+                # The argument is an untyped bottom constant; it carries no
+                # type information to unify with.
+                continue
             if not type_assignments:
                 # Compute how the type variables at declaration point are
                 # instantiated based on the type of passed in the corresponding
